@@ -60,6 +60,7 @@ type hxSrv struct {
 	textOf     func(c *hxCmd, okReply bool) string
 	authFn     func(s *hxSrv, line string) // AUTH / continuation handler (nil: 502)
 	inAuth     bool
+	authStep   int
 	greeting   string
 	monitor    bool // raise protocol-legality assertions (C04)
 	failPos    string // if set: only replies at this position key may deviate
